@@ -1,9 +1,597 @@
 // Package vxform rewrites Go sources of redis/rueidis so that every
-// synchronisation operation goes through the scheduler shims (see DESIGN.md §2.2).
+// synchronisation operation goes through the scheduler shims (DESIGN.md §2.2):
+//
+//   - imports of sync, sync/atomic, time, context, runtime, math/rand(/v2) are
+//     redirected to github.com/redis/rueidis/vshim/...
+//   - channel send/receive/close/range/select become vchan calls
+//   - go statements become vsched.Go
+//   - range over a map iterates a deterministically ordered key snapshot
+//
+// The rewrite is syntactic and generic (no rueidis line is special-cased);
+// go/types is used only to classify the operand of range statements and
+// constant arguments of go statements. Anything it cannot handle is an error.
 package vxform
 
-import "errors"
+import (
+	"bytes"
+	"encoding/json"
+	"fmt"
+	"go/ast"
+	"go/build"
+	"go/importer"
+	"go/parser"
+	"go/printer"
+	"go/token"
+	"go/types"
+	"os"
+	"path/filepath"
+	"reflect"
+	"sort"
+	"strconv"
+	"strings"
+)
 
-func TransformRepo(repo, out string) error    { return errors.New("not built yet") }
-func LoadOverlay(out string, ov map[string]string) error { return errors.New("not built yet") }
-func TransformFile(src, dst string) error     { return errors.New("not built yet") }
+const shimBase = "github.com/redis/rueidis/vshim/"
+
+var importMap = map[string]string{
+	"sync":         shimBase + "sync",
+	"sync/atomic":  shimBase + "sync/atomic",
+	"time":         shimBase + "time",
+	"context":      shimBase + "context",
+	"runtime":      shimBase + "runtime",
+	"math/rand":    shimBase + "mrand2",
+	"math/rand/v2": shimBase + "mrand2",
+}
+
+// Scope lists the package directories (relative to the repository root) that
+// are transformed for the sim flavour.
+var Scope = []string{".", "internal/util", "internal/cmds", "rueidislock", "rueidisaside", "rueidislimiter", "rueidishook"}
+
+type xf struct {
+	skip    map[ast.Node]bool
+	fset    *token.FileSet
+	info    *types.Info
+	n       int
+	needCh  bool
+	needSch bool
+	errs    []string
+}
+
+func (x *xf) errf(pos token.Pos, f string, a ...any) {
+	x.errs = append(x.errs, x.fset.Position(pos).String()+": "+fmt.Sprintf(f, a...))
+}
+
+func (x *xf) tmp(p string) *ast.Ident {
+	x.n++
+	return ast.NewIdent("_vx" + p + strconv.Itoa(x.n))
+}
+
+func sel(pkg, name string) ast.Expr { return &ast.SelectorExpr{X: ast.NewIdent(pkg), Sel: ast.NewIdent(name)} }
+
+func call(fn ast.Expr, args ...ast.Expr) *ast.CallExpr { return &ast.CallExpr{Fun: fn, Args: args} }
+
+func (x *xf) vchan(name string, args ...ast.Expr) *ast.CallExpr {
+	x.needCh = true
+	return call(sel("vchan", name), args...)
+}
+
+func (x *xf) vsched(name string, args ...ast.Expr) *ast.CallExpr {
+	x.needSch = true
+	return call(sel("vsched", name), args...)
+}
+
+var (
+	exprT = reflect.TypeOf((*ast.Expr)(nil)).Elem()
+	stmtT = reflect.TypeOf((*ast.Stmt)(nil)).Elem()
+	declT = reflect.TypeOf((*ast.Decl)(nil)).Elem()
+	specT = reflect.TypeOf((*ast.Spec)(nil)).Elem()
+	nodeT = reflect.TypeOf((*ast.Node)(nil)).Elem()
+	objT  = reflect.TypeOf((*ast.Object)(nil))
+	scpT  = reflect.TypeOf((*ast.Scope)(nil))
+)
+
+// walk rewrites the tree below v: pre is applied to a node before its
+// children are visited (and may return a replacement), post after.
+func (x *xf) walk(v reflect.Value) {
+	switch v.Kind() {
+	case reflect.Interface:
+		if v.IsNil() {
+			return
+		}
+		t := v.Type()
+		if t == exprT || t == stmtT || t == declT || t == specT || t == nodeT {
+			n := v.Interface().(ast.Node)
+			if r := x.pre(n); r != nil {
+				v.Set(reflect.ValueOf(r))
+				n = r
+			}
+			x.walk(reflect.ValueOf(n))
+			if r := x.post(v.Interface().(ast.Node)); r != nil {
+				v.Set(reflect.ValueOf(r))
+			}
+		}
+	case reflect.Ptr:
+		if v.IsNil() || v.Type() == objT || v.Type() == scpT {
+			return
+		}
+		if v.Elem().Kind() == reflect.Struct {
+			x.walk(v.Elem())
+		}
+	case reflect.Struct:
+		for i := 0; i < v.NumField(); i++ {
+			f := v.Field(i)
+			if f.CanSet() || f.Kind() == reflect.Ptr || f.Kind() == reflect.Slice {
+				x.walk(f)
+			}
+		}
+	case reflect.Slice:
+		for i := 0; i < v.Len(); i++ {
+			x.walk(v.Index(i))
+		}
+	}
+}
+
+func isRecv(e ast.Expr) (*ast.UnaryExpr, bool) {
+	for {
+		if p, ok := e.(*ast.ParenExpr); ok {
+			e = p.X
+			continue
+		}
+		break
+	}
+	u, ok := e.(*ast.UnaryExpr)
+	return u, ok && u.Op == token.ARROW
+}
+
+func (x *xf) pre(n ast.Node) ast.Node {
+	switch s := n.(type) {
+	case *ast.SelectStmt:
+		return x.selectStmt(s, nil)
+	case *ast.LabeledStmt:
+		if ss, ok := s.Stmt.(*ast.SelectStmt); ok {
+			return x.selectStmt(ss, s.Label)
+		}
+		if rs, ok := s.Stmt.(*ast.RangeStmt); ok && x.info != nil {
+			if tv, ok := x.info.Types[rs.X]; ok && tv.Type != nil {
+				if _, isMap := tv.Type.Underlying().(*types.Map); isMap {
+					return x.rangeStmt(rs, s.Label)
+				}
+			}
+		}
+	case *ast.GoStmt:
+		return x.goStmt(s)
+	case *ast.RangeStmt:
+		if r := x.rangeStmt(s, nil); r != nil {
+			return r
+		}
+	case *ast.AssignStmt:
+		if len(s.Lhs) == 2 && len(s.Rhs) == 1 {
+			if u, ok := isRecv(s.Rhs[0]); ok {
+				s.Rhs[0] = x.vchan("Recv2", u.X)
+			}
+		}
+	case *ast.ValueSpec:
+		if len(s.Names) == 2 && len(s.Values) == 1 {
+			if u, ok := isRecv(s.Values[0]); ok {
+				s.Values[0] = x.vchan("Recv2", u.X)
+			}
+		}
+	}
+	return nil
+}
+
+func (x *xf) post(n ast.Node) ast.Node {
+	switch s := n.(type) {
+	case *ast.UnaryExpr:
+		if s.Op == token.ARROW {
+			return x.vchan("Recv", s.X)
+		}
+	case *ast.SendStmt:
+		return &ast.ExprStmt{X: x.vchan("Send", s.Chan, s.Value)}
+	case *ast.CallExpr:
+		if id, ok := s.Fun.(*ast.Ident); ok && id.Name == "close" && len(s.Args) == 1 {
+			if x.info != nil {
+				if _, isBuiltin := x.info.Uses[id].(*types.Builtin); !isBuiltin && x.info.Uses[id] != nil {
+					return nil
+				}
+			}
+			return x.vchan("Close", s.Args[0])
+		}
+	}
+	return nil
+}
+
+func (x *xf) selectStmt(s *ast.SelectStmt, label *ast.Ident) ast.Stmt {
+	blk := &ast.BlockStmt{}
+	sw := &ast.SwitchStmt{Body: &ast.BlockStmt{}}
+	hasDefault := false
+	var caseArgs []ast.Expr
+	idx := 0
+	for _, cl := range s.Body.List {
+		cc := cl.(*ast.CommClause)
+		if cc.Comm == nil {
+			hasDefault = true
+			sw.Body.List = append(sw.Body.List, &ast.CaseClause{List: nil, Body: cc.Body})
+			continue
+		}
+		cv := x.tmp("c")
+		var body []ast.Stmt
+		switch c := cc.Comm.(type) {
+		case *ast.SendStmt:
+			blk.List = append(blk.List, &ast.AssignStmt{Lhs: []ast.Expr{cv}, Tok: token.DEFINE, Rhs: []ast.Expr{x.vchan("S", c.Chan, c.Value)}})
+		case *ast.ExprStmt:
+			u, ok := isRecv(c.X)
+			if !ok {
+				x.errf(c.Pos(), "unsupported select comm clause")
+				return s
+			}
+			blk.List = append(blk.List, &ast.AssignStmt{Lhs: []ast.Expr{cv}, Tok: token.DEFINE, Rhs: []ast.Expr{x.vchan("R", u.X)}})
+		case *ast.AssignStmt:
+			u, ok := isRecv(c.Rhs[0])
+			if !ok {
+				x.errf(c.Pos(), "unsupported select comm clause")
+				return s
+			}
+			blk.List = append(blk.List, &ast.AssignStmt{Lhs: []ast.Expr{cv}, Tok: token.DEFINE, Rhs: []ast.Expr{x.vchan("R", u.X)}})
+			rhs := []ast.Expr{call(&ast.SelectorExpr{X: cv, Sel: ast.NewIdent("V")})}
+			if len(c.Lhs) == 2 {
+				rhs = append(rhs, call(&ast.SelectorExpr{X: cv, Sel: ast.NewIdent("OK")}))
+			}
+			body = append(body, &ast.AssignStmt{Lhs: c.Lhs, Tok: c.Tok, Rhs: rhs})
+			if c.Tok == token.DEFINE {
+				// avoid "declared and not used" when the body ignores the variable
+				for _, l := range c.Lhs {
+					if id, ok := l.(*ast.Ident); ok && id.Name != "_" {
+						body = append(body, &ast.AssignStmt{Lhs: []ast.Expr{ast.NewIdent("_")}, Tok: token.ASSIGN, Rhs: []ast.Expr{ast.NewIdent(id.Name)}})
+					}
+				}
+			}
+		default:
+			x.errf(cc.Pos(), "unsupported select comm clause %T", c)
+			return s
+		}
+		caseArgs = append(caseArgs, cv)
+		sw.Body.List = append(sw.Body.List, &ast.CaseClause{List: []ast.Expr{&ast.BasicLit{Kind: token.INT, Value: strconv.Itoa(idx)}}, Body: append(body, cc.Body...)})
+		idx++
+	}
+	hd := "false"
+	if hasDefault {
+		hd = "true"
+	} else {
+		// keeps the statement terminating when every clause terminates, like the select it replaces
+		sw.Body.List = append(sw.Body.List, &ast.CaseClause{List: nil, Body: []ast.Stmt{&ast.ExprStmt{X: call(ast.NewIdent("panic"), &ast.BasicLit{Kind: token.STRING, Value: strconv.Quote("vchan: select returned no case")})}}})
+	}
+	sw.Tag = x.vchan("Select", append([]ast.Expr{ast.NewIdent(hd)}, caseArgs...)...)
+	if label != nil {
+		blk.List = append(blk.List, &ast.LabeledStmt{Label: label, Stmt: sw})
+	} else {
+		blk.List = append(blk.List, sw)
+	}
+	return blk
+}
+
+func (x *xf) isConst(e ast.Expr) bool {
+	switch v := e.(type) {
+	case *ast.BasicLit:
+		return true
+	case *ast.Ident:
+		if v.Name == "nil" || v.Name == "true" || v.Name == "false" {
+			return true
+		}
+	}
+	if x.info != nil {
+		if tv, ok := x.info.Types[e]; ok && (tv.Value != nil || tv.IsNil()) {
+			return true
+		}
+	}
+	return false
+}
+
+func (x *xf) goStmt(s *ast.GoStmt) ast.Stmt {
+	c := s.Call
+	if fl, ok := c.Fun.(*ast.FuncLit); ok && len(c.Args) == 0 {
+		return &ast.ExprStmt{X: x.vsched("Go", fl)}
+	}
+	blk := &ast.BlockStmt{}
+	var fn ast.Expr = c.Fun
+	if _, ok := c.Fun.(*ast.FuncLit); !ok {
+		if id, ok := c.Fun.(*ast.Ident); !ok || (x.info != nil && isVar(x.info.Uses[id])) {
+			f := x.tmp("f")
+			blk.List = append(blk.List, &ast.AssignStmt{Lhs: []ast.Expr{f}, Tok: token.DEFINE, Rhs: []ast.Expr{c.Fun}})
+			fn = f
+		}
+	}
+	args := make([]ast.Expr, len(c.Args))
+	for i, a := range c.Args {
+		if x.isConst(a) {
+			args[i] = a
+			continue
+		}
+		v := x.tmp("a")
+		blk.List = append(blk.List, &ast.AssignStmt{Lhs: []ast.Expr{v}, Tok: token.DEFINE, Rhs: []ast.Expr{a}})
+		args[i] = v
+	}
+	inner := &ast.CallExpr{Fun: fn, Args: args, Ellipsis: c.Ellipsis}
+	if c.Ellipsis != token.NoPos {
+		inner.Ellipsis = 1
+	}
+	blk.List = append(blk.List, &ast.ExprStmt{X: x.vsched("Go", &ast.FuncLit{Type: &ast.FuncType{Params: &ast.FieldList{}}, Body: &ast.BlockStmt{List: []ast.Stmt{&ast.ExprStmt{X: inner}}}})})
+	return blk
+}
+
+func isVar(o types.Object) bool {
+	_, ok := o.(*types.Var)
+	return ok
+}
+
+func (x *xf) rangeStmt(s *ast.RangeStmt, label *ast.Ident) ast.Stmt {
+	if x.info == nil || x.skip[s] {
+		return nil // harness files: authors avoid range over maps/channels
+	}
+	tv, ok := x.info.Types[s.X]
+	if !ok || tv.Type == nil {
+		x.errf(s.Pos(), "no type information for range operand")
+		return nil
+	}
+	switch u := tv.Type.Underlying().(type) {
+	case *types.Chan:
+		// for k := range ch { body }  =>  for { k, ok := vchan.Recv2(ch); if !ok { break }; body }
+		okv := x.tmp("ok")
+		var lhs ast.Expr = ast.NewIdent("_")
+		tok := token.DEFINE
+		if s.Key != nil {
+			lhs = s.Key
+			if s.Tok == token.ASSIGN {
+				// k already declared: declare ok separately
+				body := []ast.Stmt{
+					&ast.DeclStmt{Decl: &ast.GenDecl{Tok: token.VAR, Specs: []ast.Spec{&ast.ValueSpec{Names: []*ast.Ident{okv}, Type: ast.NewIdent("bool")}}}},
+					&ast.AssignStmt{Lhs: []ast.Expr{lhs, okv}, Tok: token.ASSIGN, Rhs: []ast.Expr{x.vchan("Recv2", s.X)}},
+					&ast.IfStmt{Cond: &ast.UnaryExpr{Op: token.NOT, X: okv}, Body: &ast.BlockStmt{List: []ast.Stmt{&ast.BranchStmt{Tok: token.BREAK}}}},
+				}
+				return &ast.ForStmt{Body: &ast.BlockStmt{List: append(body, s.Body.List...)}}
+			}
+		}
+		body := []ast.Stmt{
+			&ast.AssignStmt{Lhs: []ast.Expr{lhs, okv}, Tok: tok, Rhs: []ast.Expr{x.vchan("Recv2", s.X)}},
+			&ast.IfStmt{Cond: &ast.UnaryExpr{Op: token.NOT, X: okv}, Body: &ast.BlockStmt{List: []ast.Stmt{&ast.BranchStmt{Tok: token.BREAK}}}},
+		}
+		if id, ok := lhs.(*ast.Ident); ok && id.Name != "_" {
+			body = append(body, &ast.AssignStmt{Lhs: []ast.Expr{ast.NewIdent("_")}, Tok: token.ASSIGN, Rhs: []ast.Expr{ast.NewIdent(id.Name)}})
+		}
+		return &ast.ForStmt{Body: &ast.BlockStmt{List: append(body, s.Body.List...)}}
+	case *types.Map:
+		_ = u
+		// for k, v := range m { body } => { _m := m; for _, k := range vsched.MapKeys(_m) { v, ok := _m[k]; if !ok { continue }; body } }
+		mv := x.tmp("m")
+		okv := x.tmp("ok")
+		kv := ast.Expr(x.tmp("k"))
+		var pro []ast.Stmt
+		if s.Key != nil {
+			if id, ok := s.Key.(*ast.Ident); !ok || id.Name != "_" {
+				if s.Tok == token.ASSIGN {
+					pro = append(pro, &ast.AssignStmt{Lhs: []ast.Expr{s.Key}, Tok: token.ASSIGN, Rhs: []ast.Expr{kv}})
+				} else {
+					kv = s.Key
+				}
+			}
+		}
+		var valLhs ast.Expr = ast.NewIdent("_")
+		valTok := token.DEFINE
+		if s.Value != nil {
+			if id, ok := s.Value.(*ast.Ident); !ok || id.Name != "_" {
+				valLhs = s.Value
+				if s.Tok == token.ASSIGN {
+					valTok = token.ASSIGN
+				}
+			}
+		}
+		if valTok == token.ASSIGN {
+			pro = append(pro,
+				&ast.DeclStmt{Decl: &ast.GenDecl{Tok: token.VAR, Specs: []ast.Spec{&ast.ValueSpec{Names: []*ast.Ident{okv}, Type: ast.NewIdent("bool")}}}},
+				&ast.AssignStmt{Lhs: []ast.Expr{valLhs, okv}, Tok: token.ASSIGN, Rhs: []ast.Expr{&ast.IndexExpr{X: mv, Index: kv}}})
+		} else {
+			pro = append(pro, &ast.AssignStmt{Lhs: []ast.Expr{valLhs, okv}, Tok: token.DEFINE, Rhs: []ast.Expr{&ast.IndexExpr{X: mv, Index: kv}}})
+		}
+		pro = append(pro, &ast.IfStmt{Cond: &ast.UnaryExpr{Op: token.NOT, X: okv}, Body: &ast.BlockStmt{List: []ast.Stmt{&ast.BranchStmt{Tok: token.CONTINUE}}}})
+		if id, ok := valLhs.(*ast.Ident); ok && id.Name != "_" && valTok == token.DEFINE {
+			pro = append(pro, &ast.AssignStmt{Lhs: []ast.Expr{ast.NewIdent("_")}, Tok: token.ASSIGN, Rhs: []ast.Expr{ast.NewIdent(id.Name)}})
+		}
+		if id, ok := kv.(*ast.Ident); ok && id.Name != "_" {
+			pro = append(pro, &ast.AssignStmt{Lhs: []ast.Expr{ast.NewIdent("_")}, Tok: token.ASSIGN, Rhs: []ast.Expr{ast.NewIdent(id.Name)}})
+		}
+		inner := &ast.RangeStmt{Key: ast.NewIdent("_"), Value: kv, Tok: token.DEFINE, X: x.vsched("MapKeys", mv), Body: &ast.BlockStmt{List: append(pro, s.Body.List...)}}
+		x.skip[inner] = true
+		var loop ast.Stmt = inner
+		if label != nil {
+			loop = &ast.LabeledStmt{Label: label, Stmt: inner}
+		}
+		return &ast.BlockStmt{List: []ast.Stmt{
+			&ast.AssignStmt{Lhs: []ast.Expr{mv}, Tok: token.DEFINE, Rhs: []ast.Expr{s.X}},
+			loop,
+		}}
+	}
+	return nil
+}
+
+func (x *xf) file(f *ast.File) {
+	for _, cg := range f.Comments {
+		for _, c := range cg.List {
+			if strings.HasPrefix(c.Text, "//go:") && !strings.HasPrefix(c.Text, "//go:build") && !strings.HasPrefix(c.Text, "//go:generate") {
+				x.errf(c.Pos(), "unsupported compiler directive %s", c.Text)
+			}
+		}
+	}
+	f.Comments = nil
+	f.Doc = nil
+	for _, im := range f.Imports {
+		p, _ := strconv.Unquote(im.Path.Value)
+		if np, ok := importMap[p]; ok {
+			im.Path = &ast.BasicLit{Kind: token.STRING, Value: strconv.Quote(np)}
+			im.Path.ValuePos = im.Pos()
+			if im.Name == nil && strings.HasSuffix(np, "mrand2") {
+				im.Name = ast.NewIdent("rand")
+			}
+		}
+	}
+	x.walk(reflect.ValueOf(f))
+	var add []string
+	if x.needCh {
+		add = append(add, shimBase+"vchan")
+	}
+	if x.needSch {
+		add = append(add, shimBase+"vsched")
+	}
+	have := map[string]bool{}
+	for _, im := range f.Imports {
+		p, _ := strconv.Unquote(im.Path.Value)
+		have[p] = true
+	}
+	for _, p := range add {
+		if have[p] {
+			continue
+		}
+		spec := &ast.ImportSpec{Path: &ast.BasicLit{Kind: token.STRING, Value: strconv.Quote(p)}}
+		gd := &ast.GenDecl{Tok: token.IMPORT, Specs: []ast.Spec{spec}}
+		f.Decls = append([]ast.Decl{gd}, f.Decls...)
+		f.Imports = append(f.Imports, spec)
+	}
+}
+
+func render(fset *token.FileSet, f *ast.File, header string) ([]byte, error) {
+	var buf bytes.Buffer
+	buf.WriteString(header)
+	cfg := printer.Config{Mode: printer.UseSpaces | printer.TabIndent, Tabwidth: 8}
+	if err := cfg.Fprint(&buf, fset, f); err != nil {
+		return nil, err
+	}
+	return buf.Bytes(), nil
+}
+
+// TransformFile rewrites one stand-alone file (harness code) without type
+// information: imports, channel operations, select and go statements.
+func TransformFile(src, dst string) error {
+	fset := token.NewFileSet()
+	f, err := parser.ParseFile(fset, src, nil, parser.ParseComments)
+	if err != nil {
+		return err
+	}
+	header := ""
+	for _, cg := range f.Comments {
+		for _, c := range cg.List {
+			if strings.HasPrefix(c.Text, "//go:build") && c.Pos() < f.Package {
+				header = c.Text + "\n\n"
+			}
+		}
+	}
+	x := &xf{fset: fset, skip: map[ast.Node]bool{}}
+	x.file(f)
+	if len(x.errs) > 0 {
+		return fmt.Errorf("vxform %s: %s", src, strings.Join(x.errs, "; "))
+	}
+	b, err := render(fset, f, header)
+	if err != nil {
+		return err
+	}
+	return os.WriteFile(dst, b, 0o644)
+}
+
+// TransformRepo transforms every package in Scope from repo into out and
+// writes out/overlay.json (original path -> transformed path, test files -> deleted).
+func TransformRepo(repo, out string) error {
+	if _, err := os.Stat(filepath.Join(out, "overlay.json")); err == nil {
+		return nil
+	}
+	if err := os.MkdirAll(out, 0o755); err != nil {
+		return err
+	}
+	ov := map[string]string{}
+	cwd, _ := os.Getwd()
+	defer os.Chdir(cwd)
+	for _, rel := range Scope {
+		dir := filepath.Join(repo, rel)
+		if _, err := os.Stat(dir); err != nil {
+			continue
+		}
+		ctx := build.Default
+		bp, err := ctx.ImportDir(dir, 0)
+		if err != nil {
+			if _, ok := err.(*build.NoGoError); ok {
+				continue
+			}
+			if _, ok := err.(*build.MultiplePackageError); !ok {
+				return fmt.Errorf("vxform: %s: %v", dir, err)
+			}
+		}
+		fset := token.NewFileSet()
+		var files []*ast.File
+		var names []string
+		for _, n := range bp.GoFiles {
+			f, err := parser.ParseFile(fset, filepath.Join(dir, n), nil, parser.ParseComments)
+			if err != nil {
+				return err
+			}
+			files = append(files, f)
+			names = append(names, n)
+		}
+		info := &types.Info{Types: map[ast.Expr]types.TypeAndValue{}, Uses: map[*ast.Ident]types.Object{}}
+		if err := os.Chdir(dir); err != nil {
+			return err
+		}
+		var terrs []string
+		conf := types.Config{Importer: importer.ForCompiler(fset, "source", nil), Error: func(err error) { terrs = append(terrs, err.Error()) }}
+		conf.Check(bp.ImportPath, fset, files, info)
+		if len(terrs) > 0 {
+			return fmt.Errorf("vxform: type errors in %s (the tree must compile): %s", dir, strings.Join(terrs[:min(len(terrs), 5)], "; "))
+		}
+		for i, f := range files {
+			x := &xf{fset: fset, info: info, skip: map[ast.Node]bool{}}
+			x.file(f)
+			if len(x.errs) > 0 {
+				return fmt.Errorf("vxform: %s", strings.Join(x.errs, "; "))
+			}
+			b, err := render(fset, f, "")
+			if err != nil {
+				return err
+			}
+			dst := filepath.Join(out, strings.ReplaceAll(rel, "/", "__")+"__"+names[i])
+			if err := os.WriteFile(dst, b, 0o644); err != nil {
+				return err
+			}
+			ov[filepath.Join(dir, names[i])] = dst
+		}
+		// every other .go file of the directory (tests, files excluded by build constraints) is removed from the build
+		ents, _ := os.ReadDir(dir)
+		for _, e := range ents {
+			if e.IsDir() || !strings.HasSuffix(e.Name(), ".go") {
+				continue
+			}
+			p := filepath.Join(dir, e.Name())
+			if _, ok := ov[p]; !ok {
+				ov[p] = ""
+			}
+		}
+	}
+	keys := make([]string, 0, len(ov))
+	for k := range ov {
+		keys = append(keys, k)
+	}
+	sort.Strings(keys)
+	b, _ := json.MarshalIndent(ov, "", " ")
+	return os.WriteFile(filepath.Join(out, "overlay.json"), b, 0o644)
+}
+
+// LoadOverlay merges out/overlay.json into ov.
+func LoadOverlay(out string, ov map[string]string) error {
+	b, err := os.ReadFile(filepath.Join(out, "overlay.json"))
+	if err != nil {
+		return err
+	}
+	m := map[string]string{}
+	if err := json.Unmarshal(b, &m); err != nil {
+		return err
+	}
+	for k, v := range m {
+		ov[k] = v
+	}
+	return nil
+}
